@@ -497,6 +497,21 @@ func Align(exp []Expect, got []Got) []Problem {
 			}
 		}
 	}
+	// the two halves of one rename arrive adjacent from the kernel: the Create must directly follow its Rename (C03)
+	for i := 1; i < len(want); i++ {
+		a, b := want[i-1], want[i]
+		if a.Kind != "must" || b.Kind != "must" || b.Rec.Cookie == 0 || a.Rec.Cookie != b.Rec.Cookie || a.Rec.Mask&inMOVEDFROM == 0 || b.Rec.Mask&inMOVEDTO == 0 {
+			continue
+		}
+		for j := range got {
+			if got[j].Name == b.Name && got[j].Op == b.Op {
+				if j == 0 || got[j-1].Name != a.Name || got[j-1].Op != a.Op {
+					out = append(out, Problem{"order", "the Create of a rename is not immediately preceded by the Rename of its old name", describe()})
+				}
+				break
+			}
+		}
+	}
 	// unmatched musts and unbacked gots, then pair them up: same operation but
 	// another name = misspelling (C08); same name and operation but another old
 	// name = wrong rename correlation (C11); the rest is lost / phantom
